@@ -21,10 +21,15 @@ type ref struct {
 	written map[string]int
 	dirty   map[string]bool
 	files   map[string]int
+	// for the listing oracle: index type, the span of timestamps a series has held since it
+	// was last absent, and the series that were emptied by a delete that did not span it
+	indexType string
+	span      map[string][2]int64
+	piecemeal map[string]bool
 }
 
 func newRef() *ref {
-	return &ref{ftypes: map[string]byte{}, data: map[string]map[int64]string{}, meas: map[string]string{}, index: map[string]string{}, written: map[string]int{}, dirty: map[string]bool{}, files: map[string]int{}}
+	return &ref{ftypes: map[string]byte{}, data: map[string]map[int64]string{}, meas: map[string]string{}, index: map[string]string{}, written: map[string]int{}, dirty: map[string]bool{}, files: map[string]int{}, span: map[string][2]int64{}, piecemeal: map[string]bool{}}
 }
 
 type rpt struct {
@@ -82,6 +87,7 @@ func (r *ref) write(pts []rpt) string {
 				r.data[k] = map[int64]string{}
 			}
 			r.data[k][p.t] = f[1]
+			r.noteTime(p.meas+"|"+p.tags, p.t)
 			r.meas[k] = p.meas
 		}
 	}
@@ -109,6 +115,9 @@ func (r *ref) step(f []string, op, o string) fw.Verdict {
 		}
 	case "reset":
 		*r = *newRef()
+		if len(f) > 1 {
+			r.indexType = f[1]
+		}
 	case "w":
 		pts := parsePts(f[1])
 		want := r.write(pts)
@@ -126,6 +135,7 @@ func (r *ref) step(f []string, op, o string) fw.Verdict {
 		}
 		for i := 0; i < n; i++ {
 			r.data[k][t0+int64(i)*stp] = fmt.Sprintf("i%d", vb+int64(i))
+			r.noteTime(f[1]+"|"+f[2], t0+int64(i)*stp)
 		}
 		r.meas[k] = f[1]
 		r.index[f[1]+"|"+f[2]] = f[1]
@@ -272,6 +282,21 @@ func selects(series, meas, pred string) bool {
 	return false
 }
 
+func (r *ref) noteTime(series string, t int64) {
+	delete(r.piecemeal, series)
+	sp, ok := r.span[series]
+	if !ok {
+		sp = [2]int64{t, t}
+	}
+	if t < sp[0] {
+		sp[0] = t
+	}
+	if t > sp[1] {
+		sp[1] = t
+	}
+	r.span[series] = sp
+}
+
 func (r *ref) deleteRange(meas, pred string, tmin, tmax int64) {
 	for k, m := range r.data {
 		series := strings.SplitN(k, "/", 2)[0]
@@ -301,6 +326,12 @@ func (r *ref) deleteRange(meas, pred string, tmin, tmax int64) {
 		}
 		if !r.hasData(series) {
 			delete(r.index, series)
+			if sp, ok := r.span[series]; ok {
+				if !(tmin <= sp[0] && tmax >= sp[1]) {
+					r.piecemeal[series] = true
+				}
+				delete(r.span, series)
+			}
 		}
 	}
 	hasM := map[string]bool{}
@@ -371,9 +402,22 @@ func (r *ref) listing(f []string, op, o string) fw.Verdict {
 			return fw.Verdict{OK: false, Why: fmt.Sprintf("%s answered %.300s: %q still has points but is not listed", op, o, x), Signature: f[0] + " listing drops something that still has points"}
 		}
 	}
+	ling := map[string]bool{}
+	for series := range r.piecemeal {
+		add(series, ling)
+	}
 	for x := range got {
 		if !may[x] {
-			return fw.Verdict{OK: false, Why: fmt.Sprintf("%s answered %.300s: %q is listed although all its points were removed", op, o, x), Signature: f[0] + " listing keeps something whose points were all removed"}
+			sig := f[0] + " listing keeps something whose points were all removed"
+			switch {
+			case ling[x]:
+				// the last points went in a delete that did not span everything the series had
+				// held (earlier deletes took the rest): the TSM index still names the key
+				sig = "listing keeps a series emptied by several partial deletes"
+			case f[0] == "tagvals" && r.indexType == "tsi1":
+				sig = "tagvals listing keeps a value whose series were all deleted (tsi1 index)"
+			}
+			return fw.Verdict{OK: false, Why: fmt.Sprintf("%s answered %.300s: %q is listed although all its points were removed", op, o, x), Signature: sig}
 		}
 	}
 	return fw.Verdict{OK: true}
